@@ -164,8 +164,16 @@ def replay_all(rep, behaviours, docs_enc, npool, label):
         b["npool"] = npool
     n = 16
     chunks = [(docs_enc, behaviours[i::n], i * 10 ** 6) for i in range(n) if behaviours[i::n]]
-    with ProcessPoolExecutor(max_workers=n) as ex:
-        results = list(ex.map(_replay_chunk, chunks))
+    # the parsed behaviours are large: keep the forked workers from copying the parent's heap page by page (a collection
+    # in a child writes to the header of every tracked object it inherited)
+    import gc
+    gc.collect()
+    gc.freeze()
+    try:
+        with ProcessPoolExecutor(max_workers=n) as ex:
+            results = list(ex.map(_replay_chunk, chunks))
+    finally:
+        gc.unfreeze()
     rep.traces += len(behaviours)
     for ci, bad in enumerate(results):
         for idx, clause, detail in bad:
